@@ -103,14 +103,32 @@ def one_run(anthem, base, k, n, outcomes, prefix, decomposition):
             open(f"{d}/ctl/release.{pid}.tmp", "w").write(str(code)); os.rename(f"{d}/ctl/release.{pid}.tmp", f"{d}/ctl/release.{pid}")
             released[pid] = (name, data)
             t_last = time.time()
+        # all k problems were released; anthem must now finish on its own. A prover process that shows up
+        # now is an additional run (e.g. a retry): it is answered at once with its problem's outcome and
+        # counted, so that such an implementation is judged in bounded time instead of parking forever.
+        late = 0
+        t_end = time.time() + 10
+        while proc.poll() is None and time.time() < t_end:
+            for pth in glob.glob(f"{d}/ctl/arrived.*"):
+                pid = int(pth.rsplit(".", 1)[1])
+                if pid in released or os.path.exists(f"{d}/ctl/release.{pid}"): continue
+                data = open(f"{d}/ctl/stdin.{pid}", "rb").read() if os.path.exists(f"{d}/ctl/stdin.{pid}") else b""
+                name = next((nm for nm, txt in (files or {}).items() if txt == data), None)
+                idx = sorted(files.keys()).index(name) if files and name in files else None
+                out, code = OUTCOMES[outcomes[idx] if idx is not None else "Theorem"]
+                open(f"{d}/ctl/out.{pid}", "wb").write(out)
+                open(f"{d}/ctl/release.{pid}.tmp", "w").write(str(code)); os.rename(f"{d}/ctl/release.{pid}.tmp", f"{d}/ctl/release.{pid}")
+                late += 1; t_end = time.time() + 10
+            time.sleep(0.005)
         try:
-            so, se = proc.communicate(timeout=10)
+            so, se = proc.communicate(timeout=1)
         except subprocess.TimeoutExpired:
             proc.kill(); so, se = proc.communicate(); hang = True
         if files is None:
             files = {os.path.basename(p)[:-2]: open(p, "rb").read() for p in sorted(glob.glob(f"{d}/out/*.p"))}
         # leftover provers that were started but never released (should not exist)
         extra = [p for p in glob.glob(f"{d}/ctl/arrived.*") if int(p.rsplit(".", 1)[1]) not in released]
+        assert late <= len(extra)
         obs = {"stdout": so.decode(errors="replace"), "stderr": se.decode(errors="replace")[-400:], "exit": proc.returncode, "hang": hang,
                "handed": sorted(nm for nm, _ in released.values()), "files": sorted(files.keys()),
                "byte_identical": all(files.get(nm) == data for nm, data in released.values()), "extra_provers": len(extra)}
@@ -146,6 +164,8 @@ def judge(obs, k, outcomes):
     if results != k: bad.append(("status_block_count", f"{results} result blocks for {k} problems"))
     return bad
 
+STOP = {"set": False, "confirmed": 0}
+
 def explore(run, anthem, k, n, outcome_names, decomposition, pool):
     """DFS over completion orders for every outcome assignment."""
     jobs = []
@@ -160,6 +180,8 @@ def explore(run, anthem, k, n, outcome_names, decomposition, pool):
         stack = [[]]
         seen_orders = 0
         while stack:
+            if STOP["set"]:
+                break
             prefix = stack.pop()
             obs, choices = one_run(anthem, None, k, n, outcomes, prefix, decomposition)
             seen_orders += 1
@@ -180,6 +202,11 @@ def explore(run, anthem, k, n, outcome_names, decomposition, pool):
                 # replay twice before reporting
                 again = [judge(one_run(anthem, None, k, n, outcomes, prefix, decomposition)[0], k, list(outcomes)) for _ in range(2)]
                 if all(any(k2 == key for k2, _ in a) for a in again):
+                    STOP["confirmed"] += 1
+                    if STOP["confirmed"] >= 12 and not STOP["set"]:
+                        STOP["set"] = True
+                        run.exhaustive = False
+                        run.assumptions.append("exploration stopped after 12 confirmed counterexamples; the remaining outcome assignments / release orders were not run")
                     run.violation(key, {"k": k, "instances": n, "decomposition": decomposition, "outcomes": list(outcomes), "schedule_choices": prefix, "what": desc,
                                         "stdout_tail": obs.get("stdout", "")[-600:], "stderr_tail": obs.get("stderr", "")})
                 else:
@@ -279,9 +306,11 @@ def main():
         plan = [(1, 1, allo, "sequential"), (1, 2, allo, "sequential"), (2, 1, allo, "sequential"), (2, 2, allo, "sequential"), (2, 2, allo, "independent"), (2, 8, QUICK_OUTCOMES, "sequential"),
                 (3, 1, QUICK_OUTCOMES, "sequential"), (3, 2, QUICK_OUTCOMES, "sequential"), (3, 3, QUICK_OUTCOMES, "independent"), (3, 8, ["Theorem", "Timeout", "Crash", "NonUtf8Noise", "KilledBySignal"], "sequential")]
     for k, n, oc, dec in plan:
-        explore(run, anthem, k, n, oc, dec, pool)
+        if not STOP["set"]:
+            explore(run, anthem, k, n, oc, dec, pool)
     missing_executable(run, anthem)
-    loom_layer(run, tier)
+    if not STOP["set"]:
+        loom_layer(run, tier)
     run.extra["plan"] = [{"k": k, "instances": n, "outcomes": oc, "decomposition": dec} for k, n, oc, dec in plan]
     run.sample({"k": 2, "instances": 2, "outcomes": ["Theorem", "Crash"], "schedule_choices": [1], "meaning": "release the second parked prover first"})
     sys.exit(run.finish(merge_from=True if os.environ.get("C10_MERGE") else None))
